@@ -54,6 +54,10 @@ structure Cfg where
   botHost : Str
   /-- members per RPL_NAMREPLY line -/
   namesPerLine : Nat
+  /-- RPL_ISUPPORT: CHANTYPES and CHANNELLEN (the other tokens are fixed, see `Srv.isupport`) -/
+  chantypes : Str
+  /-- decimal text -/
+  channellen : Str
 deriving Repr, DecidableEq, Inhabited
 
 /-- a query of the bot the server still has to answer -/
@@ -137,6 +141,8 @@ inductive Act
   | chghost (nick ident host : Str)
   /-- PRIVMSG from a user to a channel or to the bot -/
   | say (nick target text : Str)
+  /-- RPL_ISUPPORT (sent after the welcome; a server may repeat it) -/
+  | isupport
   | names (chan : Str)
   | who (chan : Str)
   /-- the reply to a MODE query (the bot sends one on joining; the reply may come after it has left again) -/
@@ -272,6 +278,16 @@ def Srv.replyBans (s : Srv) (c : Str) : Srv × List Ev :=
   | some sc =>
     ({ s with bansSynced := if s.botIn sc then sadd s.bansSynced (lower c) else s.bansSynced }, s.banList sc)
   | none => (s, [])
+
+/-- RPL_ISUPPORT of this server: CHANTYPES and CHANNELLEN from the configuration; PREFIX, CHANMODES and
+CASEMAPPING are what the bot's hard-coded tables assume -/
+def isupportEv (cfg : Cfg) (bot : Str) : Ev :=
+  emit cfg.server "005"
+    [bot, "CHANTYPES=".toList ++ cfg.chantypes, "CHANNELLEN=".toList ++ cfg.channellen,
+     "PREFIX=(ohv)@%+".toList, "CHANMODES=beIq,k,l,imnpstrCR".toList, "CASEMAPPING=rfc1459".toList, "NICKLEN=30".toList,
+     "are supported by this server".toList]
+
+def Srv.isupport (s : Srv) : Ev := isupportEv s.cfg s.bot
 
 /-! ### transitions -/
 
@@ -496,6 +512,7 @@ def Srv.step (s : Srv) : Act → Srv × List Ev
         ({ s with told := sadd s.told (lower n) },
          [emit u.mask "PRIVMSG" [if lower target = s.botKey then s.bot else ((s.chan target).map (·.name)).getD target, text]])
       else (s, [])
+  | .isupport => (s, [s.isupport])
   | .names c =>
     match s.chan c with
     | some sc =>
@@ -520,11 +537,14 @@ def Srv.step (s : Srv) : Act → Srv × List Ev
         let s1 := s.dropEverywhere s.botKey
         ({ s1 with users := aset (adel s1.users s.botKey) (lower s.cfg.botNick) { u with nick := s.cfg.botNick },
                    bot := s.cfg.botNick, told := [], modesSynced := [], bansSynced := [], pending := [] },
-         [.reset, emit s.cfg.server "001" [s.cfg.botNick, "Welcome".toList]])
+         [.reset, emit s.cfg.server "001" [s.cfg.botNick, "Welcome".toList],
+          isupportEv s.cfg s.cfg.botNick])
 
 def Cfg.valid (c : Cfg) : Bool :=
   validNick c.botNick && validWord c.botIdent && validWord c.botHost && validWord c.server &&
-    c.server.contains '.'
+    c.server.contains '.' && c.chantypes.contains '#' && c.chantypes.contains '&' &&
+    c.chantypes.all (fun x => !isSpace x && x != Char.ofNat 0) && c.channellen.all isDigit &&
+    (match pyInt c.channellen with | some n => decide (50 ≤ n) | none => false)
 
 def Srv.init (cfg : Cfg) : Srv :=
   { cfg := cfg, users := [(lower cfg.botNick, ⟨cfg.botNick, cfg.botIdent, cfg.botHost⟩)], bot := cfg.botNick }
